@@ -1,5 +1,6 @@
 import algebra
 import layers
+import raychk
 import switches
 
 
@@ -11,3 +12,10 @@ def check(rep, tier, replay=None):
         "dr_action: for SO2/SO3/SE2/SE3/Galilei the returned matrix equals, column by column, matrix(g) hat(e_i) [v;1] -- the derivative of "
         "(g exp(eps e_i)) v at eps = 0 -- as an exact polynomial identity modulo the unit-norm constraints (optimized IR, polynomial domain).")
     algebra.check_identities(rep, tier, "C04")
+    rep.explanations.append(
+        "Rule T (engine R, lib/rays.py): the tangent input is abstracted as a = t*a0 along rational rays; the optimized IR of the witness is "
+        "interpreted in the domain of truncated power series in t over exact rationals, and the closed-form path must reproduce the "
+        "defining series coefficient by coefficient to order 8 (dr_exp(a) = sum (-1)^k ad(a)^k/(k+1)!, dr_expinv(a) dr_exp(a) = I); polynomial branches of small-angle switches may differ only "
+        "by terms below the tolerance at the largest t that selects them.  A mismatch is a definite violation; agreement along the rays "
+        "examined is a necessary condition of the identity for all a (not a proof).  Rounding is not modelled.")
+    raychk.run(rep, tier, "C04", ["drexp", "drinv"], 1e-7)
